@@ -272,6 +272,7 @@ func cmdCheck(argv []string) int {
 	}
 	// closures that moved to another ordinal since the contracts were written: re-attach their contracts
 	buildClosureAliases(ld.Fns)
+	buildFunctionAliases(ld.Fns, ld.Specs.Contracts)
 	{
 		type move struct {
 			from, to string
@@ -279,14 +280,20 @@ func cmdCheck(argv []string) int {
 		}
 		var moves []move
 		for full, ct := range ld.Specs.Contracts {
-			if !strings.Contains(full, "$") {
-				continue
-			}
 			key, mode := full, ""
 			if i := strings.Index(full, "@"); i >= 0 {
 				key, mode = full[:i], full[i:]
 			}
-			if cur, ok := baselineToClosure[strings.ReplaceAll(key, modulePrefix+"/", "")]; ok {
+			short := strings.ReplaceAll(key, modulePrefix+"/", "")
+			cur, ok := baselineToClosure[short]
+			if !ok {
+				if i := strings.Index(short, "$"); i > 0 {
+					if p, okp := baselineToClosure[short[:i]]; okp {
+						cur, ok = p+short[i:], true
+					}
+				}
+			}
+			if ok {
 				if nf := qualifyAny(cur) + mode; nf != full {
 					moves = append(moves, move{full, nf, ct})
 				}
@@ -953,6 +960,8 @@ func untriggered(ld *Loaded, ex *Exec, id string) []string {
 // parameter or named result (a harmless edit) must not make the contracts unreadable: paramNames binds the recorded
 // name to the same position when the function still has as many parameters of it.
 type sigNames struct {
+	FP       *closureFP          `json:"fp,omitempty"`       // fingerprint of the function itself (rename tolerance)
+	Loops    []loopFP            `json:"loops,omitempty"`    // fingerprints of the function's loops (ordinal-shift tolerance)
 	Closures []closureFP         `json:"closures,omitempty"` // fingerprints of the function's closures (ordinal-shift tolerance)
 	Params   []string            `json:"params"`
 	Results  []string            `json:"results"`
@@ -1019,6 +1028,9 @@ func updateSignatureBaseline(ld *Loaded) {
 			s.Results = append(s.Results, r.At(i).Name())
 		}
 		s.Allocs, s.Phis = localNames(fn)
+		s.Loops = loopFingerprints(fn)
+		fp := fingerprint(fn)
+		s.FP = &fp
 		if !strings.Contains(name, "$") {
 			for _, c := range allClosures(fn) {
 				s.Closures = append(s.Closures, fingerprint(c))
